@@ -1,3 +1,4 @@
 import Audit.Tool
 import Uds.Props.C04
+import Uds.Props.C04Unlock
 #audit Uds.Props.C04
